@@ -924,5 +924,6 @@ RULES = [
     # scan had released the registry lock - later grace periods return without waiting for it
     ("C01.putback", lambda c, r: pat.shared(__import__("sa.rules.c15", fromlist=["x"]).rule_lists, "C01.putback")(c, r)),
     ("C01.self", lambda c, r: pat.shared(__import__("sa.rules.c02", fromlist=["x"]).rule_self, "C01.self")(c, r)),   # a qsbr updater that returns offline is no longer waited for
+    ("C01.listtrav", lambda c, r: __import__("sa.rules.c15", fromlist=["x"]).rule_listtrav(c, r, "C01.listtrav")),   # wait_for_readers walks the registry with these macros
 ]
 FLOORS = {}
